@@ -26,5 +26,10 @@ func (k Keeper) GetAccountInfo(goCtx context.Context, req *types.QueryGetAccount
 		return &types.QueryGetAccountInfoResponse{AccAddress: "Account Not found", PubKey: ""}, nil
 	}
 
-	return &types.QueryGetAccountInfoResponse{AccAddress: accountInfo.GetAddress().String(), PubKey: accountInfo.GetPubKey().String()}, nil
+	// an account that never signed a transaction has no public key yet
+	pubKey := ""
+	if pk := accountInfo.GetPubKey(); pk != nil {
+		pubKey = pk.String()
+	}
+	return &types.QueryGetAccountInfoResponse{AccAddress: accountInfo.GetAddress().String(), PubKey: pubKey}, nil
 }
